@@ -86,13 +86,13 @@ def Conflict.wf (c : Conflict) : Bool :=
 
 abbrev Stanza := List (Str × Str)
 
-def tPath : Str := "path".toList
-def tType : Str := "type".toList
-def tFileId : Str := "file_id".toList
-def tConflictPath : Str := "conflict_path".toList
-def tAction : Str := "action".toList
-def tConflictFileId : Str := "conflict_file_id".toList
-def tHash : Str := "hash".toList
+def tPath : Str := ['p', 'a', 't', 'h']
+def tType : Str := ['t', 'y', 'p', 'e']
+def tFileId : Str := ['f', 'i', 'l', 'e', '_', 'i', 'd']
+def tConflictPath : Str := ['c', 'o', 'n', 'f', 'l', 'i', 'c', 't', '_', 'p', 'a', 't', 'h']
+def tAction : Str := ['a', 'c', 't', 'i', 'o', 'n']
+def tConflictFileId : Str := ['c', 'o', 'n', 'f', 'l', 'i', 'c', 't', '_', 'f', 'i', 'l', 'e', '_', 'i', 'd']
+def tHash : Str := ['h', 'a', 's', 'h']
 
 def optPair (tag : Str) : Option Str → Stanza
   | none => []
@@ -143,6 +143,18 @@ def requiredTags : Shape → List Str
   | .handled => [tAction, tPath]
   | .handledPath => [tAction, tPath, tConflictPath]
 
+/-- `ctype[type](**kwargs)`: the constructor call with the remaining stanza entries -/
+def buildConflict (ct : CType) (s : Stanza) : Except Err Conflict :=
+  let sh := ct.shape
+  if !(s.all fun p => p.1 == tType || (allowedTags sh).contains p.1) then .error .type
+  else if !((requiredTags sh).all fun t => (sget s t).isSome) then .error .type
+  else
+    match sget s tPath with
+    | none => .error .type
+    | some p =>
+      .ok { ctype := ct, path := p, fileId := sget s tFileId, conflictPath := sget s tConflictPath,
+            action := sget s tAction, conflictFileId := sget s tConflictFileId }
+
 /-- `Conflict.factory(**stanza.as_dict())` -/
 def fromStanza (s : Stanza) : Except Err Conflict :=
   match sget s tType with
@@ -150,16 +162,7 @@ def fromStanza (s : Stanza) : Except Err Conflict :=
   | some ts =>
     match CType.ofString ts with
     | none => .error .key
-    | some ct =>
-      let sh := ct.shape
-      if !(s.all fun p => p.1 == tType || (allowedTags sh).contains p.1) then .error .type
-      else if !((requiredTags sh).all fun t => (sget s t).isSome) then .error .type
-      else
-        match sget s tPath with
-        | none => .error .type
-        | some p =>
-          .ok { ctype := ct, path := p, fileId := sget s tFileId, conflictPath := sget s tConflictPath,
-                action := sget s tAction, conflictFileId := sget s tConflictFileId }
+    | some ct => buildConflict ct s
 
 /-! ## rio text -/
 
@@ -226,11 +229,13 @@ def parseLines : List Str → Except Err (Str × Stanza)
     | .error e => .error e
     | .ok (pend, ps) =>
       match l with
-      | '\t' :: t => .ok ('\n' :: (t ++ pend), ps)
-      | _ =>
-        match splitTag l with
-        | none => .error .value
-        | some (tag, v) => if validTag tag then .ok ([], (tag, v ++ pend) :: ps) else .error .value
+      | [] => .error .value
+      | c :: t =>
+        if c = '\t' then .ok ('\n' :: (t ++ pend), ps)
+        else
+          match splitTag l with
+          | none => .error .value
+          | some (tag, v) => if validTag tag then .ok ([], (tag, v ++ pend) :: ps) else .error .value
 
 def parseBlock (ls : List Str) : Except Err Stanza :=
   match parseLines ls with
